@@ -312,13 +312,26 @@ func compareInst(acc *diffAcc, got x86ref.Inst, want x86ref.Inst) {
 	}
 }
 
-// diagnosed reports whether the run produced an error-level diagnostic (a
-// deliberately generous reading of gosk's log lines).
+// diagnosed reports whether the run produced an error-level diagnostic.  The
+// reading is deliberately generous (it can only lose detections, never raise
+// a false alarm): besides colog's error/alert headers it accepts any line
+// that is not explicitly marked debug/trace/info and mentions an error-like
+// keyword ("Error: ...", "failed ...", "unsupported ..."), warnings about
+// truncation, and a "GOSK :" line on stdout.
 func diagnosed() bool {
 	for _, l := range vrt.Diag() {
 		ll := strings.ToLower(l)
 		if strings.HasPrefix(ll, "stdout: gosk :") {
 			return true
+		}
+		lowLevel := false
+		for _, h := range []string{"debug:", "dbg:", "d:", "trace:", "trc:", "t:", "info:", "inf:", "i:"} {
+			if strings.HasPrefix(ll, h) {
+				lowLevel = true
+			}
+		}
+		if lowLevel {
+			continue
 		}
 		if strings.Contains(ll, "error") || strings.Contains(ll, "failed") || strings.Contains(ll, "not found") ||
 			strings.Contains(ll, "unsupported") || strings.Contains(ll, "invalid") || strings.Contains(ll, "fatal") ||
